@@ -70,10 +70,14 @@ DTYPE_MAX = {'uint8': 255, 'uint16': 65535, 'uint32': 2 ** 32 - 1, 'uint64': 2 *
 
 
 # ------------------------------------------------------------------------------------------ helpers
-def _fetch(fn, *a, **k):
+def _fetch(fn, *a, _keep=None, **k):
     try:
         return ('ok', fn(*a, **k))
     except Exception as e:  # noqa: BLE001
+        if _keep is not None:
+            # the caller holds on to the exception object (pytest.raises, errors.append(e), a REPL): its traceback keeps the
+            # frames of the failed call — and whatever they still hold open — alive
+            _keep.append(e)
         return ('err', type(e).__name__ + ': ' + str(e)[:160])
 
 
@@ -897,7 +901,7 @@ def _run_read(ctx, obj, rq, frames, info):
         _expected({'d': dict(d, rows=d['tile'][0], cols=d['tile'][1])}, rq, plane_masks)
     if crop is not None and exp[0] == 'ok':
         exp = ('ok', exp[1][crop], exp[2])
-    st, val = _fetch(call)
+    st, val = _fetch(call, _keep=obj.get('kept'))
     if st == 'ok':
         val = post(val)
         if entry == 'volume' and d['kind'] != 'tiled':
@@ -1402,6 +1406,10 @@ def _object_cases(ctx, d, reqs, pending):
         if reqlist[0].get('vrange'):
             q['vrange'] = reqlist[0]['vrange']
         steps.append((len(steps), q, None))
+    # half of the objects are read by a caller that KEEPS the exceptions of refused reads for the rest of the history
+    if ctx.rng('keep', d['idx']).random() < 0.5:
+        obj['kept'] = []
+        ctx.hist('history', 'exceptions of refused reads kept')
     snap = bytes(seg.PixelData) if d['via'] != 'lazy' and 'PixelData' in seg else None
     cache = None
     results = {}
